@@ -59,7 +59,7 @@ def unhex(h):
 
 
 def parse_out(line):
-    """harness / model output line -> ({fmt: bytes|None}, [values])"""
+    """harness / model output line -> ({fmt: bytes|None}, [values] or the P flags)"""
     texts, vals = {}, []
     if line is None:
         return None, []
@@ -67,6 +67,9 @@ def parse_out(line):
     for i, t in enumerate(w):
         if t == "R":
             vals = w[i + 1:]
+            break
+        if t.startswith("P:"):
+            vals = t[2:]
             break
         if ":" in t:
             k, v = t.split(":", 1)
@@ -191,6 +194,16 @@ def build_tree():
 
 
 def run(ck):
+    import faulthandler
+    # diagnostic only: where the check is if it is still running after 5 minutes
+    faulthandler.dump_traceback_later(300, exit=False, file=sys.stderr)
+    try:
+        return run_(ck)
+    finally:
+        faulthandler.cancel_dump_traceback_later()
+
+
+def run_(ck):
     Lb, harness = build_tree()
     infos, problems, regenerated = regen_templates(Lb["snap"])
     ck.tie = "regenerated+correspondence" if regenerated else "correspondence"
@@ -202,6 +215,9 @@ def run(ck):
 
     res = vv.prove("Properties_C19", vv.FLOCQ_AXIOMS)
     ck.add_proof(res)
+    if ck.thorough:
+        # witnesses of the findings on the pinned tree (statements about the pinned texts)
+        ck.add_proof(vv.prove("Refuted_C19", vv.FLOCQ_AXIOMS))
     ck.trusted += ["translate/templates.py (display() switch -> template table) and translate/cxx_mini.py tokenizer",
                    "extraction: ExtrOcamlBasic only; ocaml/lang_driver.ml + zutil.ml",
                    "harness/h_lang.cc (hex printing of the streams); g++ 12 ASan/UBSan",
@@ -239,12 +255,25 @@ def run(ck):
 
     hl = [c.harness_line() for c in cases]
     ml = [c.model_line(class_index) for c in cases]
-    hout, crashes = pc.run_harness_resilient(harness, hl)
-    rc, mout, merr = vv.run_lines(model, "\n".join(ml) + "\n")
-    if rc != 0 or len(mout) != len(cases):
-        raise vv.BuildError("model driver failed: rc=%s %s" % (rc, merr[:500]))
+    # the extracted model works on lists of Z: run it in parallel slices, next to the harness
+    nchunk = max(1, min(8, len(ml) // 200))
+    step = (len(ml) + nchunk - 1) // nchunk
+    with concurrent.futures.ThreadPoolExecutor(nchunk + 1) as ex:
+        fh = ex.submit(pc.run_harness_resilient, harness, hl)
+        fm = [ex.submit(vv.run_lines, model, "\n".join(ml[i:i + step]) + "\n") for i in range(0, len(ml), step)]
+        hout, crashes = fh.result()
+        mout = []
+        for fut in fm:
+            rc, o, merr = fut.result()
+            if rc != 0:
+                raise vv.BuildError("model driver failed: rc=%s %s" % (rc, merr[:500]))
+            mout += o
+    if len(mout) != len(cases):
+        raise vv.BuildError("model driver answered %d of %d cases" % (len(mout), len(cases)))
 
     failures = []     # (fmt, kind, case index, message)
+    reader_bad = []
+    flag_hist = {}
     impl = []
     hist = {}
     pairs = set()
@@ -258,7 +287,7 @@ def run(ck):
                              {"case": c.to_json(), "impl": ho, "sanitizer": crashes.get(k, "")[-1500:]})
             continue
         ht, hv = parse_out(ho)
-        mt, _ = parse_out(mout[k])
+        mt, mflags = parse_out(mout[k])
         impl.append((ht, hv))
         if ht is None:
             ck.add_diff({"case": c.to_json()}, mout[k], ho, "harness did not print the four texts")
@@ -276,6 +305,14 @@ def run(ck):
         # correspondence: byte equality in the four formats
         if mt is None or any(mt[f] != ht[f] for f in FMTS):
             ck.add_diff({"case": c.to_json()}, mout[k], ho)
+        # the extracted lexer + parser of the Coq development read the (identical) text as the
+        # program's expression: the executed part of the printer/parser round trip (C19_parse_pp_partial)
+        if mt is not None and all(mt[f] == ht[f] for f in FMTS) and c.wellformed:
+            for j, f in enumerate(FMTS):
+                fl = mflags[j] if isinstance(mflags, str) and len(mflags) == 4 else "?"
+                flag_hist[fl] = flag_hist.get(fl, 0) + 1
+                if fl == "x":
+                    reader_bad.append((f, k))
         # oracle (a): the text denotes the program's expression
         if c.wellformed and c.tag != "user":
             for f in FMTS:
@@ -339,6 +376,16 @@ def run(ck):
                                             L.dbl_of(int(got[j], 16)))))
                         break
     ck.coverage["executed_c_evaluations"] = executed
+
+    # texts the extracted reader does not read as the program's expression: a violation if the
+    # independent oracle agrees (then it is in `failures`), otherwise the model's parser is at fault
+    flagged = {(f, k) for f, kind, k, msg in failures}
+    for f, k in reader_bad:
+        if (f, k) not in flagged:
+            ck.add_diff({"case": cases[k].to_json(), "format": f}, "read(text) <> ast", impl[k][0][f].decode("latin-1"),
+                        "the extracted lexer/parser does not read the printed text as the program's expression")
+    ck.coverage["extracted_reader"] = {"read_equals_ast": flag_hist.get("y", 0), "differs": flag_hist.get("x", 0),
+                                       "outside_hypotheses": flag_hist.get("n", 0)}
 
     # report the smallest failing program of each (format, kind)
     best = {}
